@@ -133,6 +133,16 @@ SUMMARY = {
  "C17-n": "token bucket grants a chunk whenever any token is left: streamed responses exceed the rate bound",
  "C18-n": "credentials map seeded from the emulator's own environment: in snapshot mode the static credentials are placed in the runtime's environment",
  "C19-n": "Kill holds the process-table lock across its wait: Terminate / Kill / Exec of other processes queue behind a slow one",
+ "C05-o": "reset deadline computed from the wall clock but compared with the monotonic clock: the kill at the deadline never comes, a timed-out invocation with a stalled SHUTDOWN subscriber is never answered",
+ "C06-o": "the init-failure channel is not closed after an init failure: the invocation after the failed one waits for an init outcome for ever",
+ "C07-o": "exit channels forgotten also when the reset gave up waiting for them: the late exit notification of a stubborn process panics the watcher",
+ "C09-o": "shutdown after a failed cold init gets a wall-clock deadline (compared with the monotonic clock): SHUTDOWN deadline decades ahead, nothing is ever killed",
+ "C11-o": "CancelWithError ignores every cancellation after the first: a waiter gets the first error, not the most recent one",
+ "C13-o": "exit/error checks for the error-type header only after the state transition: a refused (403 MissingHeader) call moves the extension to ExitError",
+ "C14-o": "the response size limit is only applied when the runtime did not declare a streamed response: an oversized body with the streaming header reaches the caller",
+ "C15-o": "an error at the overhead step (fault between response and next) is returned only after invoke-runtime-done was sent with status success",
+ "C16-o": "AWS_LAMBDA_RUNTIME_API built from the configured host and port instead of the listener's: with port 0 processes are told :0",
+ "C20-o": "the last-resort crop of the error cause crops message and working_directory once to a per-string worst case: two escape-heavy strings together exceed 64 KiB",
  "C04-e": "AwaitRuntimeReady of the invoke flow waits on the response gate: the invocation completes before the runtime asked for next",
  "C11-e": "a cancelled gate whose count is met returns success from AwaitGateCondition",
  "C13-e": "event validation of register only looks at the last element: an illegal event before a legal one registers a ghost / wrong error type",
